@@ -53,10 +53,30 @@ Proof.
   rewrite Hr, nth_error_map.
   destruct (nth_error (t_rows st) i) as [tr|] eqn:E; cbn [option_map]; [|exact H].
   unfold row_items, row_cells. destruct (r_body tr) as [|cs] eqn:Eb; cbn [option_map]; [exact H|].
+  cbv zeta. destruct (r_here tr);
   constructor; rewrite ?resize_rows, ?resize_header, ?resize_handles;
     cbn [with_rows sp_rows sp_header sp_handles t_rows t_header t_handles]; try assumption.
-  rewrite map_upd. f_equal. unfold row_items, row_cells. cbn [r_body option_map].
-  unfold row_add_cell. rewrite map_app. reflexivity.
+  all: rewrite map_upd; f_equal; unfold row_items, row_cells; cbn [r_body option_map];
+    unfold row_add_cell; rewrite map_app; reflexivity.
+Qed.
+
+Lemma upd_same {B} (l : list B) i x : nth_error l i = Some x -> upd l i x = l.
+Proof.
+  revert i; induction l as [|y l IH]; intros [|i]; cbn [nth_error upd]; try discriminate.
+  - intros H; inversion H; reflexivity.
+  - intros H. f_equal. apply IH, H.
+Qed.
+
+(* another table taking a row changes nothing the spec's rows, header or
+   handles speak of *)
+Lemma sim_taken sp st i k : Sim sp st -> Sim (sp_taken sp i k) (taken_by_other st i k).
+Proof.
+  intros H. pose proof H as [Hr Hh Hn]. unfold sp_taken, taken_by_other.
+  rewrite Hr, nth_error_map.
+  destruct (nth_error (t_rows st) i) as [tr|] eqn:E; cbn [option_map]; [|exact H].
+  constructor; cbn [with_rows sp_rows sp_header sp_handles t_rows t_header t_handles]; try assumption.
+  rewrite map_upd. change (row_items (mkTRow k false (r_body tr))) with (row_items tr).
+  rewrite upd_same; [reflexivity|]. rewrite nth_error_map, E. reflexivity.
 Qed.
 
 Lemma sim_step sp st o : Sim sp st -> Sim (sp_step sp o) (step st o).
@@ -89,6 +109,10 @@ Proof.
       rewrite ?resize_rows, ?resize_header, ?resize_handles; try assumption.
     cbn [option_map]. rewrite fold_add_items. reflexivity.
   - exact H.
+  - destruct ref as [r|i]; cbn [other_add_row]; [|apply sim_taken, H].
+    rewrite (sim_assoc sp st r H).
+    destruct (assoc r (t_handles st)) as [[cs|i]|]; cbn [option_map erase_handle]; try exact H.
+    apply sim_taken, H.
 Qed.
 
 Theorem run_sim : forall h : list (op A), Sim (spec_run h) (run h).
@@ -107,7 +131,38 @@ Proof.
       cbn [sp_bind sp_hsizes]; try reflexivity;
       unfold sp_add_at; destruct (nth_error _ _) as [[?|]|]; reflexivity.
   - destruct (assoc r (sp_handles (spec_run h))) as [[xs|i]|]; reflexivity.
+  - destruct ref as [r|i]; [destruct (assoc r (sp_handles (spec_run h))) as [[xs|i]|]|]; try reflexivity;
+      unfold sp_taken; destruct (nth_error _ _); reflexivity.
 Qed.
+
+(* within wf_hist no row of the table is ever taken by another table *)
+Lemma sp_else_plain (sp : spstate A) o :
+  match o with OtherAddRow _ _ => True | _ => sp_else (sp_step sp o) = sp_else sp end.
+Proof.
+  destruct o; cbn [sp_step]; try exact I; try reflexivity; unfold sp_add_at;
+    repeat (match goal with |- context [match ?x with _ => _ end] => destruct x end); reflexivity.
+Qed.
+
+Lemma taken_wf (sp : spstate A) (st : state) o : Sim sp st -> op_wf sp o = true ->
+  step_plain st o /\ sp_else (sp_step sp o) = sp_else sp.
+Proof.
+  intros S W. pose proof (sp_else_plain sp o) as Q.
+  destruct o; cbn [step_plain]; try (split; [exact I | exact Q]).
+  destruct ref as [r|i]; cbn [op_wf] in W; [|discriminate]. cbn [other_add_row sp_step].
+  rewrite (sim_assoc sp st r S) in W |- *.
+  destruct (assoc r (t_handles st)) as [[cs|i]|]; cbn [option_map erase_handle] in W |- *; try discriminate.
+  split; reflexivity.
+Qed.
+
+Theorem run_wf : forall h : list (op A), wf_hist h ->
+  Inv (header_sizes h) (run h) /\ sp_else (spec_run h) = [].
+Proof.
+  intros h W. induction W as [|h o W [IH1 IH2] Hwf]; [split; [exact inv_init | reflexivity]|].
+  destruct (taken_wf _ _ o (run_sim h) Hwf) as [P E].
+  rewrite run_snoc, spec_run_snoc, header_sizes_app. split; [apply inv_step; assumption | congruence].
+Qed.
+
+Definition run_inv (h : list (op A)) (W : wf_hist h) : Inv (header_sizes h) (run h) := proj1 (run_wf h W).
 
 (* ------------------------------------------------------------------ C02 *)
 
@@ -127,7 +182,7 @@ Proof.
     rewrite app_length. reflexivity.
   - unfold row_add. assert (E : forall i, length (t_rows (row_add_attached (run h) i x)) = length (t_rows (run h))).
     { intros i. unfold row_add_attached. destruct (nth_error _ _) as [tr|]; [|reflexivity].
-      destruct (r_body tr); [reflexivity|]. rewrite resize_rows. cbn [with_rows t_rows]. apply upd_length. }
+      destruct (r_body tr); [reflexivity|]. cbv zeta. destruct (r_here tr); rewrite ?resize_rows; cbn [with_rows t_rows]; apply upd_length. }
     destruct ref as [r|i]; [|apply E]. destruct (assoc r (t_handles (run h))) as [[cs|i]|]; [reflexivity | apply E | reflexivity].
   - rewrite (sim_assoc _ _ r S) in Hwf. unfold add_row.
     destruct (assoc r (t_handles (run h))) as [[cs|i]|]; cbn [option_map erase_handle] in Hwf; try discriminate.
@@ -136,12 +191,13 @@ Proof.
   - unfold add_row_items, add_row_cells. rewrite resize_rows. cbn [with_rows t_rows]. rewrite app_length. reflexivity.
   - unfold add_separator. cbn [with_rows t_rows]. rewrite app_length. reflexivity.
   - unfold add_headers. cbn [with_header t_rows]. rewrite resize_rows. reflexivity.
+  - destruct (taken_wf _ _ (OtherAddRow ref k) S Hwf) as [P _]. cbn [step_plain] in P. rewrite P. reflexivity.
 Qed.
 
 (* column count = the largest header the table has had or current row size *)
-Theorem core_ncols : forall h : list (op A),
+Theorem core_ncols : forall h : list (op A), wf_hist h ->
   ncols (run h) = list_max (header_sizes h ++ map row_size (all_rows (run h))).
-Proof. intros h. exact (inv_ncols _ _ (run_inv h)). Qed.
+Proof. intros h W. exact (inv_ncols _ _ (run_inv h W)). Qed.
 
 (* ... and the same number read off the spec state *)
 Lemma sizes_erase (rows : list (trow A)) : map srow_size (map row_items rows) = map row_size rows.
@@ -150,9 +206,10 @@ Proof.
   destruct (r_body tr); cbn [option_map srow_size body_size]; [reflexivity | apply map_length].
 Qed.
 
-Theorem core_ncols_spec : forall h : list (op A), ncols (run h) = e_ncols (spec_run h).
+Theorem core_ncols_spec : forall h : list (op A), wf_hist h -> ncols (run h) = e_ncols (spec_run h).
 Proof.
-  intros h. rewrite core_ncols. unfold e_ncols. rewrite hsizes_run, (sim_rows _ _ (run_sim h)), sizes_erase. reflexivity.
+  intros h W. rewrite (core_ncols h W). unfold e_ncols.
+  rewrite (proj2 (run_wf h W)), counted_nil, hsizes_run, (sim_rows _ _ (run_sim h)), sizes_erase. reflexivity.
 Qed.
 
 (* the full invariant, in the terms of DESIGN section 6 *)
@@ -168,9 +225,9 @@ Theorem core_inv : forall h : list (op A), wf_hist h ->
   /\ (forall cs j c, t_header st = Some cs -> nth_error cs j = Some c -> c_col c = S j)
   /\ t_panic st = false.
 Proof.
-  intros h W st. pose proof (run_inv h) as I. fold st in I.
+  intros h W st. pose proof (run_inv h W) as I. fold st in I.
   split; [apply core_order|]. split; [apply (core_nrows h W)|].
-  split; [apply core_ncols|]. split; [apply (inv_cols _ _ I)|].
+  split; [apply (core_ncols h W)|]. split; [apply (inv_cols _ _ I)|].
   split; [|split; [|apply (inv_panic _ _ I)]].
   - intros i tr E. split; [apply (inv_rownum _ _ I), E|].
     intros cs j c Ec Ej. pose proof (inv_cellnum _ _ I) as F. rewrite Forall_forall in F.
@@ -180,10 +237,10 @@ Proof.
 Qed.
 
 (* a row reports its own 1-based position *)
-Theorem core_row_location : forall (h : list (op A)) i tr,
+Theorem core_row_location : forall (h : list (op A)) i tr, wf_hist h ->
   nth_error (all_rows (run h)) i = Some tr -> row_location tr = (S i, 0).
 Proof.
-  intros h i tr E. unfold row_location. rewrite (inv_rownum _ _ (run_inv h) i tr E). reflexivity.
+  intros h i tr W E. unfold row_location. rewrite (inv_rownum _ _ (run_inv h W) i tr E). reflexivity.
 Qed.
 
 (* CellAt *)
@@ -202,7 +259,7 @@ Theorem core_cell_at : forall (h : list (op A)) (r c : Z),
        | None => Err
        end
      else Err)
-  /\ (forall rn x, cell_at (run h) r c = Ok (rn, x) ->
+  /\ (wf_hist h -> forall rn x, cell_at (run h) r c = Ok (rn, x) ->
         Z.of_nat (fst (cell_location (rn, x))) = r /\ Z.of_nat (snd (cell_location (rn, x))) = c).
 Proof.
   intros h r c.
@@ -236,13 +293,13 @@ Proof.
           apply Z.ltb_ge in C2. apply nth_error_None in Ec. lia.
       + apply nth_error_None in En. lia. }
   split; [exact E|].
-  intros rn x Hx. rewrite E in Hx. clear E.
+  intros W rn x Hx. rewrite E in Hx. clear E.
   destruct (1 <=? r) eqn:R1; [|discriminate]. destruct (1 <=? c) eqn:C1; [|discriminate].
   cbn [andb] in Hx. apply Z.leb_le in R1. apply Z.leb_le in C1.
   destruct (nth_error (all_rows (run h)) (Z.to_nat (r - 1))) as [tr|] eqn:En; [|discriminate].
   destruct (row_cells tr) as [cs|] eqn:Er; [|discriminate].
   destruct (nth_error cs (Z.to_nat (c - 1))) as [y|] eqn:Ec; [|discriminate].
-  inversion Hx; subst. pose proof (run_inv h) as I. cbn [cell_location fst snd].
+  inversion Hx; subst. pose proof (run_inv h W) as I. cbn [cell_location fst snd].
   rewrite (inv_rownum _ _ I _ _ En).
   pose proof (inv_cellnum _ _ I) as F. rewrite Forall_forall in F.
   specialize (F tr (nth_error_In _ _ En)). unfold row_cells in Er.
@@ -267,10 +324,10 @@ Proof.
 Qed.
 
 (* Column handles exist exactly for 0..ncols; the lookup never panics *)
-Theorem core_column : forall (h : list (op A)) (n : Z),
+Theorem core_column : forall (h : list (op A)) (n : Z), wf_hist h ->
   column_exists (run h) n = Ok ((0 <=? n) && (n <=? Z.of_nat (ncols (run h)))).
 Proof.
-  intros h n. unfold column_exists, ncols. pose proof (inv_cols _ _ (run_inv h)) as C.
+  intros h n W. unfold column_exists, ncols. pose proof (inv_cols _ _ (run_inv h W)) as C.
   destruct (n <? 0) eqn:N0.
   - apply Z.ltb_lt in N0. rewrite (proj2 (Z.leb_gt 0 n) N0). reflexivity.
   - apply Z.ltb_ge in N0. rewrite (proj2 (Z.leb_le 0 n) N0). cbn [orb andb].
@@ -287,13 +344,13 @@ Theorem core_all_rows_copy : forall h : list (op A), run (h ++ [MutateAllRowsCop
 Proof. intros h. rewrite run_snoc. reflexivity. Qed.
 
 (* no building call panics *)
-Theorem core_no_panic : forall h : list (op A), t_panic (run h) = false.
-Proof. intros h. exact (inv_panic _ _ (run_inv h)). Qed.
+Theorem core_no_panic : forall h : list (op A), wf_hist h -> t_panic (run h) = false.
+Proof. intros h W. exact (inv_panic _ _ (run_inv h W)). Qed.
 
 (* what renderers see is well-formed (used by C09) *)
-Theorem view_wf_all : forall (f : A -> vcell) (h : list (op A)), wf_view (view_of f (run h)).
+Theorem view_wf : forall (f : A -> vcell) (h : list (op A)), wf_hist h -> wf_view (view_of f (run h)).
 Proof.
-  intros f h. pose proof (run_inv h) as I. unfold wf_view, view_of.
+  intros f h W. pose proof (run_inv h W) as I. unfold wf_view, view_of.
   cbn [v_ncols v_rows v_header v_align v_skip]. rewrite !repeat_length.
   split; [|split; [|split; reflexivity]].
   - rewrite Forall_map, Forall_forall. intros tr Hin. unfold row_fits, row_cells.
@@ -304,8 +361,5 @@ Proof.
     destruct (t_header (run h)) as [cs|]; cbn [option_map]; [|exact Logic.I].
     rewrite map_length, (inv_ncols _ _ I). apply list_max_ge, in_or_app. left. exact (proj2 Hh).
 Qed.
-
-Theorem view_wf : forall (f : A -> vcell) (h : list (op A)), wf_hist h -> wf_view (view_of f (run h)).
-Proof. intros f h _. apply view_wf_all. Qed.
 
 End Sim.
